@@ -99,6 +99,15 @@ def cases(recs):
         if j is not None:
             rr = copy.deepcopy(recs); del rr[i]
             out.append(("SetUp line removed", rr, j))   # (line numbers shift by one)
+    # re-use histories: drop the Mod line that announces changed inputs - the calls after the next set_up were
+    # answered with the NEW factors and must then be unexplained
+    i = first(recs, lambda r: r["e"] == "Mod" and not r["resets"] and r["obj"]["cls"] in ("PD", "Comp", "Cal"))
+    if i is not None:
+        j = first(recs, lambda r: r["e"] == "SetUp", i)
+        k = first(recs, lambda r: r["e"] in ("Eff", "RV") and ok(r), j) if j is not None else None
+        if k is not None:
+            rr = copy.deepcopy(recs); del rr[i]
+            out.append(("Mod line (inputs changed) removed", rr, k))
     return out
 
 
@@ -118,6 +127,8 @@ def main():
             pick.append(("exact", t, recs))
         if "AttTab" in kinds and not any(p[0] == "att" for p in pick):
             pick.append(("att", t, recs))
+        if "Mod" in kinds and any(r["e"] == "Mod" and r["obj"]["cls"] == "Comp" for r in recs) and not any(p[0] == "reuse" for p in pick):
+            pick.append(("reuse", t, recs))
     known = {k["id"] for k in lib.load_known("C13")}
     bad_total, n = 0, 0
     for (tag, t, recs) in pick:
